@@ -150,13 +150,24 @@ def correspondence(ctx):
             ctx.disagree("registry", k, str(rc.scheme), k, True, {"scheme": k, "range_class": rc.__name__,
                          "clause": "registry entry maps to a class that prints another scheme"}, spec=k)
     # round trip of range objects
-    per = 1500 if ctx.thorough else 80
+    _roundtrip_objects(ctx, 1500 if ctx.thorough else (400 if ctx.deepen else 80), "c05-rt", "roundtrip:")
+    _other_routes(ctx)
+    ctx.sample({"text": "vers:npm/>=1.0.0|<2.0.0", "roundtrip": common.safe(lambda: VersionRange.from_string("vers:npm/>=1.0.0|<2.0.0"))})
+
+
+def search(ctx):
+    """A tie is broken and the sweep above found nothing: the same round trip on many more range objects (other
+    random choices), which is where a version text newly accepted by a class, or newly printed differently, shows."""
+    _roundtrip_objects(ctx, 4000 if ctx.thorough else 1200, "c05-search", "search-roundtrip:")
+
+
+def _roundtrip_objects(ctx, per, label, prefix):
     for rc in _range_classes():
         if not isinstance(rc.scheme, str) or rc.version_class is None:
             continue
         gname = CT.gen_name_of(rc.version_class)
-        rng = ctx.rng("c05-rt", rc.__name__)
-        stream = "roundtrip:" + rc.scheme
+        rng = ctx.rng(label, rc.__name__)
+        stream = prefix + rc.scheme
         for _ in range(per):
             k = rng.choice([1, 1, 2, 3, 4, 5])
             cons = []
@@ -191,7 +202,11 @@ def correspondence(ctx):
                         weak.add(str(v))
                         weak_src.add(s)
                 except Exception:  # noqa: BLE001
-                    continue
+                    # the version's own printed text is refused by its own class: a range holding it prints a
+                    # text that cannot be parsed back (kept, so that the clause below reports it)
+                    ctx.stream(stream)["version_text_refused"] = ctx.stream(stream).get("version_text_refused", 0) + 1
+                    weak.add(str(v))
+                    weak_src.add(s)
                 cons.append(VersionConstraint(comparator=rng.choice([">=", "<=", "!=", "<", ">", "="]), version=v))
                 texts.append(s)
             if not cons:
@@ -239,5 +254,3 @@ def correspondence(ctx):
                              {"range_class": rc.__name__, "text": text, "clause": why, "versions_whose_text_does_not_roundtrip": sorted(weak),
                               "python": "from univers.version_range import VersionRange as R; r=R.from_string(%r); print(str(r))" % text},
                              region=region, spec="round trip")
-    _other_routes(ctx)
-    ctx.sample({"text": "vers:npm/>=1.0.0|<2.0.0", "roundtrip": common.safe(lambda: VersionRange.from_string("vers:npm/>=1.0.0|<2.0.0"))})
